@@ -233,8 +233,10 @@ pub fn run(ctx: &Ctx) -> i32 {
     }
     let n = ctx.scale(10000, 200000);
     let mut trees = check::draw(ctx.seed, 0xC12, n, 520);
-    for i in 0..trees.len() {
-        let r = eval(&trees[i].current());
+    let dnas: Vec<Vec<u16>> = trees.iter().map(|t| t.current()).collect();
+    use rayon::prelude::*;
+    let results: Vec<Res> = dnas.par_iter().map(|d| eval(d)).collect();
+    for (i, r) in results.into_iter().enumerate() {
         rep.evaluations += 1;
         if !r.evaluated {
             rep.count("refused(skipped)", 1);
